@@ -174,6 +174,12 @@ func (C05) Explore(x *kernel.Explorer, seed uint64) {
 			plan.Ops = append(plan.Ops, kernel.Op{ID: j + 1, Kind: "stmt",
 				A: []int64{int64(r.Intn(len(c05Templates))), int64(r.Intn(6)), int64(r.Intn(2)), int64(r.Intn(5))}})
 		}
+		if r.Chance(1, 5) {
+			// the client goes away in the middle of the session: whatever it had sent is still delivered,
+			// answers to it cannot be written any more
+			plan.Swarm["chunk"] = 0
+			plan.Faults = append(plan.Faults, kernel.Fault{Site: "client->proxy-c", Nth: 2 + r.Intn(n+2), Kind: "cut"})
+		}
 		x.Exec(plan)
 	}
 }
@@ -284,6 +290,18 @@ func (C05) Run(t *testing.T, plan *kernel.Plan, keepLog bool) *kernel.Result {
 		site := "pg"
 		if mysql {
 			site = "mysql"
+		}
+		if len(plan.Faults) > 0 {
+			// the client went away: no answers to judge, but what the rules reject must still not reach the database
+			for i, st := range stmts {
+				if admit, why := c05Verdict(chain, ignoreParse, st); !admit && bytes.Contains(run.ToDB.Log, []byte(fmt.Sprint(st.marker))) {
+					w.Violate("C05", "blocked-statement-never-forwarded", site+"/client-gone", fmt.Sprintf("%q must be rejected (%s) but reached the database after the client had gone", script[i].SQL, why))
+				}
+			}
+			w.Probe("client-gone-session")
+			w.State(fmt.Sprintf("chain=%d ignore=%v client-gone", len(chain), ignoreParse))
+			w.Res.SimNanos = int64(time.Since(start))
+			return
 		}
 		isBlocked := func(res StmtResult) bool {
 			if mysql {
